@@ -440,7 +440,12 @@ class BuiltEq(Stream):
                 if custom is not None:
                     cc, dc = custom.copy(), copy.deepcopy(custom)
                     if not (custom == cc and cc == custom and custom == dc): out.setdefault("chord", "copy-not-equal:custom-chord")
-                    elif not (hash(custom) == hash(cc) == hash(dc) and cc in {custom}): out.setdefault("chord", "copy-hash-differs:custom-chord")
+                    else:
+                        try:
+                            ok = hash(custom) == hash(cc) == hash(dc) and cc in {custom}
+                        except TypeError:
+                            ok = False                     # equal objects must have equal hashes: a chord that compares but cannot be hashed has none
+                        if not ok: out.setdefault("chord", "copy-hash-differs:custom-chord")
             for nm, objs in (("note", notes), ("melody", [mel]), ("chord", [chord]), ("score", [score])):
                 for x in objs:
                     cp, dc = x.copy(), copy.deepcopy(x)
@@ -540,5 +545,72 @@ class NoteCopy(Stream):
             yield dict(case, steps=st[:j] + st[j + 1:])
 
 
+class TagText(Stream):
+    """the text of a note lists its tag SET in sorted order whatever the history of the set (insertions in any order, members removed
+    in between): the printed list against Tags.sort_tags, and against the text of a note that received the same set in one go"""
+    name = "tag_text"
+    mods = MODEL_MODS + ["Model.Tags"]
+    checker = "check_sort_tags"
+    pair = "the tag list printed by Note.to_code (sorted(repr(tag))) <-> Tags.sort_tags; oracle: same set => same text, equal melodies, equal hashes"
+    quick, thorough = 600, 8000
+    WORDS = ["a", "b", "ab", "aB", "Ab", "a_b", "a1", "a10", "a2", "staccato", "accent", "x", "X", "z9", "_t", "t_", "step_s0", "step_s1", "T", "0", "10", "9", "a!", "a b", "a#", "ab!"] + ["t%d" % j for j in range(40)]
+
+    def gen(self, rng, n):
+        for _ in range(n):
+            k = rng.randrange(1, 9)
+            tags = rng.sample(self.WORDS, k)
+            drop = [t for t in tags if rng.random() < 0.25]
+            extra = rng.sample(self.WORDS, 2)
+            yield {"add": tags, "drop": drop, "extra": extra}
+
+    def impl(self, case):
+        import ast, re
+        import musiclang.library as lib
+        from musiclang import Score
+        def f():
+            n = lib.s0
+            for t in case["add"] + case["extra"]:
+                n = n.add_tag(t)
+            for t in case["extra"] + case["drop"]:
+                if t in n.tags:
+                    n = n.remove_tag(t)
+            final = [t for t in case["add"] if t not in case["drop"] and not (t in case["extra"])]
+            other = lib.s0.add_tags(list(reversed(final))) if final else lib.s0
+            m1, m2 = n + lib.s1, other + lib.s1
+            txt = str(n)
+            mt = re.search(r"add_tags\((\{.*\})\)", txt)
+            printed = [] if mt is None else list(ast.literal_eval("[" + mt.group(1)[1:-1] + "]"))
+            back = Score.from_str(str(m1))
+            return {"raw": list(n.tags), "printed": printed, "final": sorted(final), "same_text": str(m1) == str(m2), "eq": bool(m1 == m2 and m2 == m1),
+                    "hash": hash(m1) == hash(m2), "copy": bool(m1 == m1.copy() and hash(m1) == hash(m1.copy())),
+                    "reread": bool(back == m1) and set(back.notes[0].tags) == set(n.tags)}
+        return mlang.guarded(f)
+
+    def term(self, case, r):
+        return T(L([S(t) for t in r["raw"]]), L([S(t) for t in r["printed"]]))
+
+    def spec(self, case, r):
+        if mlang.is_exc(r):
+            return {"sig": "tag-text-raises", "msg": str(r)}
+        if sorted(r["printed"]) != r["final"] or sorted(r["raw"]) != r["final"]:
+            return {"sig": "tag-text-members", "msg": f"the set is {r['final']}, the text lists {r['printed']}"}
+        for k, sig in (("same_text", "tag-text-depends-on-history"), ("eq", "melody-equal-tags-not-equal"), ("hash", "melody-equal-tags-different-hash"),
+                       ("copy", "melody-with-tags-not-equal-to-copy"), ("reread", "melody-with-tags-text-not-equal")):
+            if not r[k]:
+                return {"sig": sig, "msg": f"tags added {case['add'] + case['extra']}, removed {case['extra'] + case['drop']}: printed {r['printed']}"}
+        return None
+
+    def nontrivial(self, case, r):
+        return not mlang.is_exc(r) and len(r["final"]) > 1
+
+    def hist_keys(self, case, r):
+        return ["tags=%d" % (len(r["final"]) if not mlang.is_exc(r) else -1)]
+
+    def shrink(self, case):
+        for i in range(len(case["add"])):
+            if len(case["add"]) > 1:
+                yield dict(case, add=case["add"][:i] + case["add"][i + 1:])
+
+
 def streams():
-    return [NoteEq(), AmpFigure(), TonEq(), MelodyEq(), ChordEq(), ScoreEq(), BuiltEq(), NoteCopy()]
+    return [NoteEq(), AmpFigure(), TonEq(), MelodyEq(), ChordEq(), ScoreEq(), BuiltEq(), NoteCopy(), TagText()]
